@@ -9,6 +9,11 @@ the complete M x M grid (M = 64) decides "identically in both angles".  If the s
 the continuation is not demanded any more: the torus grid is dropped, only the grid on the documented domain
 [0,pi] x (-pi,pi] is enumerated and the sub-checks are marked exhaustive=False ("bounded grid only") - never a
 violation by itself.
+
+Strengthened slices (docs/STRENGTHEN_TASK.md; alphabets in mc/ref/c08x.py):
+  C08.types     both angles as python float / int, np.float64 / float32 / int64 / int32 scalars, l as int / np.int64, azimuth up to 2 pi
+  C08.scale     the polar angle as a numpy array (sizes 1, 64, 65, 257, 2-D; thorough 63..1025) with a scalar azimuth
+  C08.sequence  explicit-state search over call words (l = 4, 6, 12 x two angle pairs x dispatcher / direct) in forked children
 """
 import math
 import os
@@ -17,7 +22,7 @@ import numpy as np
 
 from mc import harness
 from mc.harness import Result, Sub
-from mc.ref import ylm
+from mc.ref import c08x, ylm
 
 ASSUMPTIONS = [
     "first argument = polar angle, second = azimuth (the docstrings of the module have the two names exchanged; the "
@@ -30,6 +35,14 @@ ASSUMPTIONS = [
     "theta in {0,pi}, phi < 0, phi = 0, phi = pi; no degree bound is available from the source",
     "the reference Y_lm (exact rational Legendre coefficients, exact Horner evaluation) is cross-checked against "
     "scipy.special.sph_harm_y on the domain grid in C08.oracle; a failure there is a defect of the oracle, not of /repo",
+    "C08.types: the angles may be given as python float / int, np.float64 / float32 / int64 / int32 scalars (the docstrings say "
+    "float); float32 arguments are only required to give float32 accuracy (1e-3 absolute; the unchanged tree is within 2e-5)",
+    "C08.scale: a numpy array of POLAR angles (1-D or 2-D) with a scalar azimuth is accepted by every SphHarm{l}, SphHarm_above "
+    "and sph_harm_l of the unchanged tree and returns shape (2l+1,) + theta.shape; this undocumented vectorised use is "
+    "exercised, but a TypeError / ValueError is NOT reported (arrays are not promised by the docstrings) - only wrong values, "
+    "a wrong shape or a modified input array are.  Azimuth arrays are not exercised (the unchanged tree rejects them for "
+    "l <= 10 and overwrites a negative azimuth array in place for l > 10)",
+    "C08.sequence: the value returned by a call must not depend on the calls made before it in the same process",
 ]
 
 RTOL, ATOL = 1e-9, 1e-11
@@ -241,6 +254,159 @@ def run_oracle(case):
     R.outcome(ref)
     return R
 
+# ------------------------------------------------------------------------------------------ strengthened slices
+def _fn(l, via):
+    import PyMatterSim.utils.spherical_harmonics as sh
+
+    if via == "dispatch":
+        return lambda a, b: sh.sph_harm_l(l, a, b)
+    if via == "dispatch_npint":  # the degree itself as a numpy integer
+        return lambda a, b: sh.sph_harm_l(np.int64(l), a, b)
+    if l <= 10:
+        return getattr(sh, "SphHarm%d" % l)
+    if via == "direct_npint":
+        return lambda a, b: sh.SphHarm_above(np.int64(l), a, b)
+    return lambda a, b: sh.SphHarm_above(l, a, b)
+
+
+def gen_types(tier, seed):
+    for l in range(1, 21):
+        for form in c08x.SCALAR_FORMS:
+            yield {"l": l, "form": form}
+
+
+def run_types(case):
+    R = Result()
+    l, form = case["l"], case["form"]
+    mk = {"pyfloat": float, "np.float64": np.float64, "np.float32": np.float32, "pyint": int, "np.int64": np.int64, "np.int32": np.int32}[form]
+    ths, phs = (c08x.INT_THETA, c08x.INT_PHI) if "int" in form else (c08x.DYADIC_THETA, c08x.DYADIC_PHI)
+    ref = ylm.Y_grid(l, ths, phs)
+    rt, at = (1e-3, 1e-3) if form == "np.float32" else (RTOL, ATOL)
+    allv = []
+    for via in ("direct", "dispatch", "dispatch_npint", "direct_npint"):
+        if via == "direct_npint" and l <= 10:
+            continue
+        f = _fn(l, via)
+        sig = {"clause": "types", "l": l, "via": via, "form": form}
+        for i, a in enumerate(ths):
+            for k, b in enumerate(phs):
+                v = f(mk(a), mk(b))
+                if v is None or np.shape(v) != (2 * l + 1,):
+                    R.fail(f"l={l} ({via}) with {form} angles ({a}, {b}): returned shape {np.shape(v)}, expected ({2 * l + 1},)", sig=dict(sig, clause="shape"))
+                    return R
+                v = np.asarray(v).astype(complex)
+                allv.append(v)
+                dev = np.where(np.isfinite(v), np.abs(v - ref[i, k]), np.inf)
+                if (dev > at + rt * np.abs(ref[i, k])).any():
+                    mi = int(np.argmax(dev))
+                    R.fail(f"l={l} ({via}) with {form} angles theta={a}, phi={b}: entry {mi} (m={mi - l}) = {v[mi]} differs from Y_lm = {ref[i, k, mi]}",
+                           sig=sig, exp=ref[i, k], obs=v)
+                    return R
+    R.elem = len(allv) * (2 * l + 1)
+    R.outcome(np.round(np.array(allv), 3 if form == "np.float32" else 9))
+    return R
+
+
+SHAPES_Q = [[1], [64], [65], [257], [5, 13]]
+SHAPES_T = SHAPES_Q + [[2], [63], [127], [128], [129], [255], [256], [1025], [64, 2], [3, 43]]
+
+
+def gen_scale(tier, seed):
+    for l in range(1, 21):
+        for shape in SHAPES_Q if tier == "quick" else SHAPES_T:
+            for via in ("direct", "dispatch"):
+                for phi in (-2.25, 1.0625):
+                    yield {"l": l, "shape": shape, "via": via, "phi": phi}
+
+
+def run_scale(case):
+    R = Result()
+    l, via, phi, shape = case["l"], case["via"], case["phi"], tuple(case["shape"])
+    n = int(np.prod(shape))
+    th = c08x.theta_array(n)
+    arr = np.array(th).reshape(shape)
+    arr0 = arr.copy()
+    sig = {"clause": "theta_array", "l": l, "via": via, "ndim": len(shape), "size": "<=64" if n <= 64 else ">64"}
+    try:
+        v = _fn(l, via)(arr, phi)
+    except (TypeError, ValueError):
+        # arrays are not promised by the docstrings: an implementation that rejects them does not violate C08
+        R.nontrivial = False
+        R.outcome("unsupported")
+        return R
+    if not np.array_equal(arr, arr0):
+        R.fail(f"l={l} ({via}): the theta array was modified", sig=dict(sig, clause="input_modified"))
+    if v is None or np.shape(v) != (2 * l + 1,) + shape:
+        R.fail(f"l={l} ({via}) theta array of shape {shape}: returned shape {np.shape(v)}, expected {(2 * l + 1,) + shape}", sig=dict(sig, clause="shape"))
+        return R
+    got = np.asarray(v).astype(complex).reshape(2 * l + 1, n).T  # [theta, m]
+    ref = ylm.Y_grid(l, th, [phi])[:, 0, :]
+    dev = np.where(np.isfinite(got), np.abs(got - ref), np.inf)
+    bad = dev > ATOL + RTOL * np.abs(ref)
+    if bad.any():
+        rows = np.nonzero(bad.any(axis=1))[0]
+        i = int(rows[0])
+        mi = int(np.argmax(dev[i]))
+        R.fail(f"l={l} ({via}) theta array of shape {shape}, phi={phi}: {len(rows)} of {n} angles wrong (first index {i}, last {int(rows[-1])}); "
+               f"at theta={th[i]!r} entry m={mi - l} = {got[i, mi]} but Y_lm = {ref[i, mi]}", sig=sig, exp=ref[i], obs=got[i])
+    R.elem = got.size
+    R.outcome(got)
+    R.nontrivial = True
+    return R
+
+
+def gen_sequence(tier, seed):
+    import itertools
+
+    nl = len(c08x.seq_letters(tier))
+    for L in (1, 2, 3):
+        for word in itertools.product(range(nl), repeat=L):
+            yield {"word": list(word), "tier": tier}
+
+
+def _seq_child(case):
+    letters = c08x.seq_letters(case["tier"])
+    outs = []
+    for k in case["word"]:
+        lt = letters[k]
+        v = np.asarray(_fn(lt["l"], lt["via"])(lt["theta"], lt["phi"])).astype(complex)
+        outs.append([v.real.tolist(), v.imag.tolist(), list(v.shape)])
+    return outs
+
+
+def run_sequence(case):
+    R = Result()
+    letters = c08x.seq_letters(case["tier"])
+    payload = c08x.forked(_seq_child, case)
+    if "err" in payload:
+        R.fail(f"call sequence {[letters[k] for k in case['word']]} raised {payload['err']}", sig={"clause": "sequence", "exception": True})
+        return R
+    states = set()
+    for pos, (k, got) in enumerate(zip(case["word"], payload["ok"])):
+        lt = letters[k]
+        l = lt["l"]
+        ref = ylm.Y_all(l, lt["theta"], lt["phi"])
+        sig = {"clause": "sequence", "position": "first" if pos == 0 else "later", "via": lt["via"], "tabulated": l <= 10}
+        if pos:
+            pv = letters[case["word"][pos - 1]]
+            sig["changed"] = sorted(f for f in ("l", "theta", "phi", "via") if pv[f] != lt[f])
+        states.add((k, str(got)))
+        if got[2] != [2 * l + 1]:
+            R.fail(f"call #{pos + 1} of {[letters[i] for i in case['word']]}: shape {got[2]}, expected [{2 * l + 1}]", sig=dict(sig, clause="sequence_shape"))
+            break
+        v = np.array(got[0]) + 1j * np.array(got[1])
+        dev = np.where(np.isfinite(v), np.abs(v - ref), np.inf)
+        if (dev > ATOL + RTOL * np.abs(ref)).any():
+            mi = int(np.argmax(dev))
+            R.fail(f"call #{pos + 1} of the sequence {[letters[i] for i in case['word']]}: entry m={mi - l} = {v[mi]} but Y_lm = {ref[mi]} "
+                   "(first call of a fresh process gives the right value: state carried between calls)", sig=sig, exp=ref, obs=v)
+            break
+    R.elem = sum(2 * letters[k]["l"] + 1 for k in case["word"])
+    R.states = len(states)
+    R.transitions = len(case["word"])
+    R.outcome(payload["ok"])
+    return R
+
 
 def subs(tier, seed):
     M, DT, DP, B = sizes(tier)
@@ -279,5 +445,24 @@ def subs(tier, seed):
     s = Sub("C08.oracle", lambda t, s_: gen_cases(t, range(1, 21), torus=False), run_oracle,
             rule="cross-check of the reference model against scipy.special.sph_harm_y, l=1..20, domain grid (not a claim about /repo)",
             bounds={"l": [1, 20], "domain_grid": [DT, DP]})
+    out.append(s)
+    s = Sub("C08.types", gen_types, run_types,
+            rule="ARGUMENT TYPES: l=1..20 x scalar type of both angles (" + ", ".join(c08x.SCALAR_FORMS) + ") x SphHarm{l}/SphHarm_above and "
+                 "sph_harm_l (l as python int and as np.int64); all pairs of 4 integer polar x 7 integer azimuth angles (radians) resp. 6 x 8 dyadic angles "
+                 "(exact in float32; azimuth also in (pi, 2 pi], which the docstrings allow), compared with the reference Y_lm (float32: to 1e-3 only)",
+            bounds={"forms": c08x.SCALAR_FORMS, "int_theta": c08x.INT_THETA, "int_phi": c08x.INT_PHI, "dyadic_theta": c08x.DYADIC_THETA, "dyadic_phi": c08x.DYADIC_PHI})
+    out.append(s)
+    s = Sub("C08.scale", gen_scale, run_scale,
+            rule="SIZES: the polar angle given as a numpy array of shape " + str(SHAPES_Q if tier == "quick" else SHAPES_T) + " (one fixed angle "
+                 "pattern per size: 0, a Weyl sequence in (0,pi), pi) with a scalar azimuth in {-2.25, 1.0625}, l=1..20, direct and via "
+                 "sph_harm_l; result must have shape (2l+1,)+theta.shape and equal Y_lm at every angle; a TypeError/ValueError counts as "
+                 "'arrays unsupported' (not a violation, case then trivial); non-trivial = the call returned",
+            bounds={"shapes": SHAPES_Q if tier == "quick" else SHAPES_T, "l": [1, 20]})
+    out.append(s)
+    s = Sub("C08.sequence", gen_sequence, run_sequence,
+            rule="explicit-state search over CALL SEQUENCES: all words of length <= 3 over %d calls (l in {4, 6, 12%s} x two angle pairs, "
+                 "sph_harm_l and the direct functions; e.g. l=4 then 6 then 4 at the same angles, the same l at two angles), each word in a forked "
+                 "child in which no harmonic was evaluated before; every call must return Y_lm of ITS OWN arguments" % (len(c08x.seq_letters(tier)), "" if tier == "quick" else ", 10, 11"),
+            bounds={"depth": 3, "letters": len(c08x.seq_letters(tier))})
     out.append(s)
     return out
